@@ -125,13 +125,6 @@ def check_labels(specs, res, dialect='new', via_list=True, max_objects=40):
                 continue
             for msg, rec in zip(msgs, recs):
                 exp = rec['conn'] is mc
-                if rec['target'].ghost:
-                    # a message on an object never seen created: the tool files it under the connection `unknown`; it must at
-                    # least not be claimed by another connection's label
-                    if cmatch.matches(msg) and not exp:
-                        res.bad('connection-label-selects-wrong', '%r selects %s of another connection' % (text, str(msg)))
-                        break
-                    continue
                 if cmatch.matches(msg) != exp:
                     res.bad('connection-label-selects-wrong', '%r on %s (expected %r)' % (text, s.matcher and str(msg), exp))
                     break
@@ -160,26 +153,20 @@ def check_labels(specs, res, dialect='new', via_list=True, max_objects=40):
             let = model.letters(mo.gen)
             if mo.label() not in shown:
                 res.bad('label-not-displayed', '%s on %s; displayed %r' % (mo.label(), mc.name, sorted(shown)[:8]))
-            for form in ('%s: %d%s' % (mc.name, mo.id, let), '%s: %d%s' % (mc.name, mo.id, let.upper())):
+            forms = ['%s: %d%s' % (mc.name, mo.id, let), '%s: %d%s' % (mc.name, mo.id, let.upper())]
+            if len(W.conns) == 1:
+                forms.append('%d%s' % (mo.id, let))      # the only connection: the label without its connection part is as exact
+            expected = [msg for msg, rec in zip(msgs, recs) if rec['conn'] is mc and mc.mentions(rec, mo)]
+            for form in forms:
                 try:
                     om = matcher.parse(form).simplify()
                 except RuntimeError as e:
                     res.bad('object-label-rejected', '%r: %s' % (form, e))
                     continue
-                expected = []
                 for msg, rec in zip(msgs, recs):
                     exp = rec['conn'] is mc and mc.mentions(rec, mo)
                     got = om.matches(msg)
                     res.evals += 1
-                    if rec['target'].ghost and exp:
-                        # on an object never seen created: filed under the connection `unknown` by the tool, so a connection-qualified
-                        # label does not reach it (unspecified by the statement; kept out of the expectation either way)
-                        if got:
-                            expected.append(msg)
-                        res.count('unseen-target-mentions(unspecified)')
-                        continue
-                    if exp:
-                        expected.append(msg)
                     if got and not exp:
                         res.bad('label-selects-unrelated-message', '%r selects %s' % (form, str(msg)))
                         break
